@@ -32,7 +32,7 @@ func init() {
 			"cyclic Go values are not generated; allocation size requested by length prefixes is recorded but is not a verdict",
 			"a per-case watchdog of 20 s (confirmed alone with 60 s) decides 'fails to terminate'",
 		},
-		quick: 450000, thorough: 8000000, minQuick: 100000, minThorough: 2000000,
+		quick: 520000, thorough: 8000000, minQuick: 100000, minThorough: 2000000,
 	}})
 }
 
@@ -80,6 +80,41 @@ type c05HasNilStringer struct {
 	T *time.Time
 	M *c05Meth
 }
+
+// a struct with a non-nil pointer next to unexported fields whose types print themselves
+type c05Lease struct {
+	Name  string
+	Owner *c05Plain
+	ttl   time.Duration
+	at    time.Time
+	m     c05Meth
+}
+
+// values that contain themselves
+type c05Node struct {
+	Name       string
+	Prev, Next *c05Node
+	Kids       []*c05Node
+}
+
+func c05Ring() *c05Node {
+	a, b, c := &c05Node{Name: "a"}, &c05Node{Name: "b"}, &c05Node{Name: "c"}
+	a.Next, b.Next, c.Next = b, c, a
+	a.Prev, b.Prev, c.Prev = c, a, b
+	a.Kids, b.Kids, c.Kids = []*c05Node{b, c}, []*c05Node{a, c}, []*c05Node{a, b}
+	return a
+}
+func c05SelfMap() map[string]interface{} {
+	m := map[string]interface{}{"k": 1}
+	m["self"], m["again"] = m, m
+	return m
+}
+func c05SelfSlice() []interface{} {
+	s := []interface{}{1, nil, nil}
+	s[1], s[2] = s, s
+	return s
+}
+
 type c05Str string
 type c05IntSlice []int
 type c05StrMap map[string]string
@@ -152,6 +187,10 @@ func c05Values() []namedVal {
 		{"list-big-nested", c05BigList(true)}, {"list-big", c05BigList(false)}, {"ints-big", c05BigInts()}, {"lists-big", c05BigLists()},
 		{"nil-time-ptr", (*time.Time)(nil)}, {"nil-stringer-ptr", (*c05Meth)(nil)}, {"nil-err-ptr", (*c05ErrVal)(nil)}, {"map-nan-key", map[float64]string{math.NaN(): "x", 1.5: "y"}}, {"map-iface-nan", map[interface{}]interface{}{math.NaN(): 1}},
 		{"stringer-nil-field", c05HasNilStringer{}}, {"list-nil-stringers", []interface{}{(*time.Time)(nil), (*c05Meth)(nil)}},
+		{"ptr-and-hidden-stringers", c05Lease{Name: "l", Owner: &c05Plain{Name: "o"}, ttl: 90 * time.Second, at: time.Unix(1700000000, 0).UTC(), m: c05Meth{V: 1}}},
+		{"list-ptr-hidden-stringers", []*c05Lease{{Name: "a", ttl: time.Second}, nil, {Name: "b", Owner: &c05Plain{}}}}, {"map-ptr-hidden-stringers", map[string]*c05Lease{"k": {Name: "a", ttl: time.Second, Owner: &c05Plain{}}}},
+		{"cyclic-list", c05Ring()}, {"cyclic-in-list", []interface{}{c05Ring()}}, {"self-map", c05SelfMap()}, {"self-slice", c05SelfSlice()}, {"cyclic-in-map", map[string]interface{}{"p": c05Ring()}},
+		{"intbig-1", math.MaxInt64 - 1}, {"intmin+1", math.MinInt64 + 1},
 		{"chan", ch}, {"func", func() int { return 1 }}, {"deep", deep}, {"err", fmt.Errorf("an error value")}, {"struct-empty", struct{}{}},
 	}
 }
@@ -271,6 +310,20 @@ func c05ExerciseOne(rec *core.Recorder, class string, e *twig.Engine, src string
 			}
 		})
 	}
+}
+
+// shortRange: range(v, w) between two integers that are close to each other is a short list however large they are.
+func shortRange(src string, v, w interface{}) bool {
+	if !strings.Contains(src, "range(v, w)") {
+		return false
+	}
+	a, ok1 := v.(int)
+	b, ok2 := w.(int)
+	if !ok1 || !ok2 || (a < 0) != (b < 0) {
+		return false
+	}
+	d := a - b
+	return d > -100 && d < 100
 }
 
 func hugeNumber(v interface{}) bool {
@@ -440,7 +493,7 @@ func (p *c05) Run(rec *core.Recorder, seed uint64, idx int, tier string) {
 		w := vals[(idx*7+3)%len(vals)]
 		if strings.Contains(src, "range(") || strings.Contains(src, "random(") {
 			// asking for ~2^63 (or infinitely many) elements is resource exhaustion by request, not a hang
-			if hugeNumber(v.V) || hugeNumber(w.V) {
+			if (hugeNumber(v.V) || hugeNumber(w.V)) && !shortRange(src, v.V, w.V) {
 				rec.Count("skipped-resource-request", 1)
 				return
 			}
@@ -461,14 +514,14 @@ func (p *c05) Run(rec *core.Recorder, seed uint64, idx int, tier string) {
 	// tier, chosen by the seed; all of them in the thorough tier)
 	nP := len(vals) * len(vals) * len(c05PairConstructs)
 	if idx < nP {
-		if tier != "thorough" && r.Intn(6) != 0 {
-			return
-		}
 		src := c05PairConstructs[idx%len(c05PairConstructs)]
 		k := idx / len(c05PairConstructs)
 		v, w := vals[k/len(vals)], vals[k%len(vals)]
+		if tier != "thorough" && r.Intn(6) != 0 && !shortRange(src, v.V, w.V) {
+			return
+		}
 		if strings.Contains(src, "range(") || strings.Contains(src, "slice(") || strings.Contains(src, "cycle(") || strings.Contains(src, "number_format(") || strings.Contains(src, "round(") || strings.Contains(src, "batch(") {
-			if hugeNumber(v.V) || hugeNumber(w.V) {
+			if (hugeNumber(v.V) || hugeNumber(w.V)) && !shortRange(src, v.V, w.V) {
 				rec.Count("skipped-resource-request", 1)
 				return
 			}
